@@ -2,9 +2,12 @@
 
 case: ( trigger roller pre a0 ops )   -- see harness/src/rolling_c05.rs
   trigger: [0, limit] | [1, min_size] | [2, pre, [thr...]]
+         | [3, n, modulate, t0]  the real TimeTrigger (n seconds) under the hook clock starting at t0;
+           the MODEL is given the oracle trigger [2, 1, script] with the decisions predicted by
+           `time_script` from the trigger's documented schedule (the schedule itself is C16's subject)
   roller : [0] | [1, base, count, gz]
   pre    : [0] | [1, bytes]
-  ops    : [0, [chunk...]] | [1, a] | [2, [[rec...]...]]  (burst of threads)
+  ops    : [0, [chunk...]] | [1, a] | [2, [[rec...]...]]  (burst of threads) | [3, t] (set the hook clock)
 impl/model result: one entry per op (entry 0 = initial build):
   [ [[shown, disk, rolled]...], [[kind, idx, bytes]...], errors, (burst: order) ]
 The model cannot predict a thread schedule: `model_lines` replaces each burst by
@@ -60,10 +63,42 @@ def base_of(roller):
 # --------------------------------------------------------------------------
 # model input: bursts replaced by the observed serialisation
 
+def time_script(case):
+    """decisions of the real TimeTrigger (interval n seconds, optional modulate, no random delay) for the
+    consultations of the case, one per appended record, as thresholds of the model's oracle trigger
+    (0 = fire, NEVER = do not fire).  TimeTrigger::new schedules next = trunc_to_second(now) + inc with
+    inc = n (plain) or n - second_of_minute % n (modulate); trigger() fires iff now >= next and then
+    reschedules from now.  A restart builds a new trigger.  All consultations of a burst see one clock."""
+    trig, roller, pre, a0, ops = case
+    n, mod, t0 = trig[1], trig[2], trig[3]
+
+    def nxt(t):
+        return t + ((n - (t % 60) % n) if mod else n)
+    clock, next_ = t0, nxt(t0)
+    script = []
+    for o in ops:
+        if o[0] == 3:
+            clock = o[1]
+        elif o[0] == 1:
+            next_ = nxt(clock)
+        else:
+            k = 1 if o[0] == 0 else sum(len(t) for t in o[1])
+            for _ in range(k):
+                fire = clock >= next_
+                if fire:
+                    next_ = nxt(clock)
+                script.append(0 if fire else NEVER)
+    return script
+
+
 def flatten_for_model(case, impl):
     trig, roller, pre, a0, ops = case
+    if trig[0] == 3:
+        trig = [2, 1, time_script(case)]
     out = []
     for i, o in enumerate(ops):
+        if o[0] == 3:
+            continue
         if o[0] != 2:
             out.append(o)
             continue
@@ -92,7 +127,7 @@ def model_lines(ctx, cases, lines, impl_lines):
     vc = ctx["vc"]
     out = []
     for c, line, il in zip(cases, lines, impl_lines):
-        if any(o[0] == 2 for o in c[4]):
+        if c[0][0] == 3 or any(o[0] in (2, 3) for o in c[4]):
             try:
                 iv = vc.parse(il)
             except Exception:
@@ -124,6 +159,7 @@ def compare(case, impl, model):
     life_rolls = 0            # C17: rolls since the last build
     life_appends = 0
     mj = 0                    # index into model entries
+    prev_snap = None
     for i in range(len(ops) + 1):
         ent = impl[i]
         if not isinstance(ent, list) or len(ent) < 3:
@@ -131,6 +167,13 @@ def compare(case, impl, model):
         consults, snap, errors = ent[0], _snap(ent[1]), ent[2]
         o = ops[i - 1] if i > 0 else [1, a0]
         # --- what the model says for this op
+        if o[0] == 3:
+            if consults or errors:
+                return "op %d: clock op produced consultations/errors" % i
+            if snap != prev_snap:
+                return "op %d: directory changed without an appender call" % i
+            continue
+        prev_snap = snap
         if o[0] == 2:
             threads = o[1]
             k = sum(len(t) for t in threads)
@@ -165,6 +208,8 @@ def compare(case, impl, model):
         nrolled = sum(1 for c in consults if c[2])
         rolls_total += nrolled
         STATS["rotations"] += nrolled
+        kind = {0: "size", 1: "startup", 2: "user", 3: "time"}[trig[0]]
+        STATS["rotations_" + kind] = STATS.get("rotations_" + kind, 0) + nrolled
         if o[0] == 1:
             life_rolls, life_appends = 0, 0
             if not o[1]:
@@ -238,7 +283,7 @@ def check_stream(snap, stream, keep, base, rolls_total):
 
 def classify(case):
     trig, roller, pre, a0, ops = case
-    t = {0: "size", 1: "startup", 2: "user-pre" if len(trig) > 1 and trig[1] else "user-post"}[trig[0]]
+    t = {0: "size", 1: "startup", 2: "user-pre" if len(trig) > 1 and trig[1] else "user-post", 3: "time"}[trig[0]]
     r = "delete" if roller[0] == 0 else "window%s" % (".gz" if roller[3] else "")
     extra = "+burst" if any(o[0] == 2 for o in ops) else ""
     extra += "+restart" if any(o[0] == 1 for o in ops) else ""
@@ -249,7 +294,8 @@ def describe(case):
     trig, roller, pre, a0, ops = case
     t = {0: lambda: "size(limit=%d)" % trig[1], 1: lambda: "on_startup(min_size=%d)" % trig[1],
          2: lambda: "scripted(%s, thresholds=%r)" % ("pre" if trig[1] else "post",
-                                                      ["never" if x >= NEVER else x for x in trig[2]])}[trig[0]]()
+                                                      ["never" if x >= NEVER else x for x in trig[2]]),
+         3: lambda: "time(%d s%s, clock starts at %d)" % (trig[1], ", modulate" if trig[2] else "", trig[3])}[trig[0]]()
     r = "delete" if roller[0] == 0 else "fixed_window(base=%d,count=%d%s)" % (roller[1], roller[2], ",gz" if roller[3] else "")
 
     def opd(o):
@@ -257,6 +303,8 @@ def describe(case):
             return "append %d bytes in %d chunk(s)" % (len(rec_of(o[1])), len(o[1]))
         if o[0] == 1:
             return "restart(append=%s)" % bool(o[1])
+        if o[0] == 3:
+            return "clock := %d" % o[1]
         return "burst %r" % ([[len(rec_of(r_)) for r_ in t_] for t_ in o[1]],)
     return {"trigger": t, "roller": r,
             "pre_existing_bytes": (len(pre[1]) if pre[0] == 1 else None),
@@ -272,9 +320,13 @@ COMMON_ASSUMPTIONS = [
     "`encode; flush` delivers the encoder's chunks completely and in order to the end of the active file "
     "(BufWriter internals are C04's subject); exercised here with records below, at and above the 1 KiB buffer",
     "active path and archive names are pairwise distinct; an archive is represented by its decompressed bytes",
-    "append() runs entirely under the appender's mutex: a concurrent execution equals the sequential run of its "
-    "calls in lock-acquisition order (the burst ops validate this on the real crate: the observed order must be a "
-    "merge of the threads' sequences and the files must match the model run in that order)",
+    "parking_lot::Mutex is modelled as an owner bit (Common/LockSerial.v) and append() as Acquire; micro-steps; "
+    "Release with every access to writer slot / files / trigger state inside the critical section, as the code "
+    "reads; under that model every schedule equals the sequential run in lock-acquisition order (proved). The burst "
+    "ops validate it on the real crate: the observed order must be a merge of the threads' sequences and the files "
+    "must match the model run in that order",
+    "time trigger: the model treats it as an oracle trigger; the checked cases feed the model the decisions "
+    "predicted from the documented schedule (second intervals, UTC, no random delay) — the schedule is C16's subject",
     "u64 length counter and u32 archive indices do not overflow (base + count <= 2^32 is C07's subject)",
     "synchronous rotation (default build); the `background_rotation` feature is not covered",
 ]
